@@ -3,7 +3,8 @@
 Decided: R1 OpenMP discipline of the three parallel constructs (schedule clause); R2 the direction-code
 table written by neighbormax and read back through o[] in localmaxlabel describe the same neighbour;
 R3 work/label buffers are defined before they are read (independence from previous buffer content);
-R4 the sparse variants are single threaded.
+R4 the sparse variants are single threaded; R6 sparse_smooth adds exactly the 3x3 neighbourhood with the documented weights
+(finite case analysis of its guards over the row / column distance).
 Not decided: steepest-ascent semantics of the pick order, equality of dense and sparse partitions.
 """
 from engine import cfront, cover, crules, definit, omp
@@ -41,6 +42,8 @@ def run(R):
         r3(R, tus, nm, lm)
     if R.want("C13.R4"):
         r4(R, tus)
+    if R.want("C13.R6"):
+        r6(R, tus)
     if R.want("C13.R5"):
         R.rule("C13.R5", "neighbour windows are computed in int: no difference (column - 1, row - 1, ...) is stored into an unsigned "
                          "variable in localmaxlabel.c or sparse_localmaxlabel / sparse_smooth (a pixel in column 0 or row 0 would see "
@@ -260,3 +263,119 @@ def r4(R, tus):
         d = [s for s in swalk(f.body) if s.k == "omp"]
         R.check(not d, "C13.R4", f.file, f.line, name, "OpenMP directives: %d" % len(d),
                 "the sparse kernel walks shared pointers sequentially; a parallel construct here needs its own analysis")
+
+
+# --------------------------------------------------------------------------------------------------
+NotEvaluable = crules.NotEvaluable
+ceval = crules.ceval
+
+
+def r6(R, tus):
+    """sparse_smooth(v, i, j, s): s[k] = sum over stored pixels p with |i[p]-i[k]| <= 1 and |j[p]-j[k]| <= 1 of w(di, dj) v[p], with
+    w = 4/16 at the centre, 2/16 for edge neighbours and 1/16 for corners (source comment: 1 2 1 / 2 3 2 / 1 2 1 plus the copy).  The
+    conditions under which the accumulation executes are evaluated for every (di, dj) in [-3, 3]^2: guards of the statement
+    (if / while conditions, scalar definitions substituted), plus the lower bound di >= -1 when the cursor starts at a position
+    that a dominating advancing loop has moved to the first pixel of row i[k] - 1 and only moves forward (sorted input)."""
+    R.rule("C13.R6", "sparse_smooth: the accumulation into s[k] executes for exactly the pixels with |di| <= 1 and |dj| <= 1 and with the "
+                     "weights 4/16 (centre, copy included), 2/16 (edge), 1/16 (corner) - finite case analysis over (di, dj) in [-3, 3]^2")
+    from fractions import Fraction
+    f = cfront.find_func(tus, "sparse_smooth", "src/sparse_image.c")
+    cfg = f.cfg
+    defs0 = cfront.scalar_defs(f)
+    pn = [p.name for p in f.params]
+    R.shape(len(pn) == 5, "C13.R6", f.file, f.name, "the five parameters v, i, j, nnz, s")
+    V, I, J, NNZ, S_ = pn
+    accs = []
+    copies = []
+    for n in cfg.find_nodes(lambda n: n.k == "expr" and n.e is not None and n.e.k == "asg"):
+        lhs = n.e.a[0]
+        if lhs.k == "idx" and estr(lhs.a[0]) == S_:
+            (accs if n.e.op == "+=" else copies).append(n)
+    R.shape(len(accs) == 1 and len(copies) == 1 and copies[0].e.op == "=", "C13.R6", f.file, f.name,
+            "one initial copy s[k] = ... and one accumulation s[k] += ... (found %d / %d)" % (len(copies), len(accs)))
+    acc = accs[0]
+    defs = dict(defs0)
+    defs.update(crules.local_defs(cfg, acc.id))
+    kidx = estr(acc.e.a[0].a[1]).replace(" ", "")
+    rhs = cfront.esubst(acc.e.a[1], defs, 4)
+    loads = [x for x in ewalk(rhs) if x.k == "idx" and estr(x.a[0]) == V]
+    R.shape(len(loads) == 1, "C13.R6", f.file, f.name, "the single load of v[] in the accumulated term")
+    pidx = estr(loads[0].a[1]).replace(" ", "")
+    R.shape(pidx != kidx, "C13.R6", f.file, f.name, "a neighbour index different from the pixel index")
+    m_def = defs.get("m")
+
+    def env_for(di, dj):
+        env = {"%s[%s]" % (I, kidx): 10, "%s[%s]" % (J, kidx): 10, "%s[%s]" % (I, pidx): 10 + di, "%s[%s]" % (J, pidx): 10 + dj,
+               "%s[%s]" % (V, pidx): Fraction(1)}
+        return env
+    # guards of the accumulation that mention the coordinate arrays
+    guards = []
+    for e, pol in cfg.guards(acc.id):
+        e2 = cfront.esubst(e, defs, 4)
+        cells = set(estr(x).replace(" ", "") for x in ewalk(e2) if x.k == "idx")
+        mine = {"%s[%s]" % (a, b) for a in (I, J) for b in (kidx, pidx)}
+        if cells and cells <= mine:
+            guards.append((e2, pol, e))
+    # lower bound from the advancing loop: the cursor variable is initialised from a variable c0 at a node where the fact
+    # !(i[c0] < i[k] - 1) holds (exit of 'while (i[c0] < i[k] - 1) c0++'), and is otherwise only incremented
+    lower = False
+    cur = loads[0].a[1]
+    if cur.k == "var":
+        writes = [n for n in cfg.find_nodes(lambda n: n.k in ("expr", "decl") and n.e is not None) if
+                  (n.e.k == "asg" and estr(n.e.a[0]) == cur.name) or (n.e.k == "incdec" and estr(n.e.a[0]) == cur.name)]
+        inits = [n for n in writes if n.e.k == "asg" and n.e.op == "="]
+        others = [n for n in writes if n not in inits]
+        fwd = all((n.e.k == "incdec" and n.e.op == "++") or (n.e.k == "asg" and n.e.op == "+=" and estr(n.e.a[1]) == "1") for n in others)
+        if len(inits) == 1 and fwd and inits[0].e.a[1].k == "var" and cfg.dominators(acc.id).count(inits[0].id):
+            c0 = inits[0].e.a[1].name
+            for e, pol in cfg.guards(inits[0].id):
+                r = crules.rel_lin(e, pol, defs)
+                if r is None:
+                    continue
+                want = crules.rel_lin_text("%s[%s] >= %s[%s] - 1" % (I, c0, I, kidx)) if hasattr(crules, "rel_lin_text") else None
+                txt = estr(cfront.esubst(e, defs, 4)).replace(" ", "").replace("(int)", "")
+                if not pol and txt in ("(%s[%s]<(%s[%s]-1))" % (I, c0, I, kidx), "((%s[%s]+1)<%s[%s])" % (I, c0, I, kidx)):
+                    lower = True
+                if pol and txt in ("(%s[%s]>=(%s[%s]-1))" % (I, c0, I, kidx), "((%s[%s]+1)>=%s[%s])" % (I, c0, I, kidx)):
+                    lower = True
+            # c0 itself only moves forward
+            w0 = [n for n in cfg.find_nodes(lambda n: n.k == "expr" and n.e is not None) if
+                  (n.e.k == "asg" and estr(n.e.a[0]) == c0) or (n.e.k == "incdec" and estr(n.e.a[0]) == c0)]
+            if not all((n.e.k == "incdec" and n.e.op == "++") or (n.e.k == "asg" and (n.e.op == "+=" or (n.e.op == "=" and estr(n.e.a[1]) == "0"))) for n in w0):
+                lower = False
+    executed = {}
+    try:
+        for di in range(-3, 4):
+            for dj in range(-3, 4):
+                env = env_for(di, dj)
+                if lower and di < -1:
+                    continue
+                ok = all(bool(ceval(e2, env)) == pol for e2, pol, _ in guards)
+                if ok:
+                    env2 = dict(env)
+                    if m_def is not None:
+                        env2["m"] = Fraction(ceval(m_def, {})) if True else None
+                    w = Fraction(ceval(rhs, env2))
+                    executed[(di, dj)] = w
+    except NotEvaluable as ex:
+        R.shape(False, "C13.R6", f.file, f.name, "a guard / weight of the accumulation as a function of the row and column distance (%s)" % ex)
+    # the copy
+    crhs = cfront.esubst(copies[0].e.a[1], defs0, 4)
+    cidx = estr(copies[0].e.a[0].a[1]).replace(" ", "")
+    try:
+        cw = Fraction(ceval(crhs, {"%s[%s]" % (V, cidx): Fraction(1), "m": Fraction(ceval(m_def, {})) if m_def is not None else 0}))
+    except NotEvaluable as ex:
+        R.shape(False, "C13.R6", f.file, f.name, "the weight of the initial copy (%s)" % ex)
+    window = [(a, b) for a in (-1, 0, 1) for b in (-1, 0, 1)]
+    extra = sorted(c for c in executed if c not in window)
+    missing = sorted(c for c in window if c not in executed)
+    R.check(not extra, "C13.R6", f.file, acc.line, f.name, "accumulation executes only inside the 3x3 window (guards: %s%s)" % (
+        " && ".join(("%s" if pol else "!(%s)") % estr(o) for _, pol, o in guards), "; cursor starts at the first pixel of row i[k]-1" if lower else ""),
+        "a stored pixel at (row, column) distance %s from pixel k is added into s[k]: nothing on the path bounds that distance (with an empty "
+        "row between two populated rows the cursor still points into the earlier row)" % (extra[:4],))
+    R.check(not missing, "C13.R6", f.file, acc.line, f.name, "every cell of the 3x3 window is added",
+            "the neighbour at (row, column) distance %s is never added" % (missing[:4],))
+    want = {(a, b): Fraction(3 - a * a - b * b, 16) for a, b in window}
+    bad = [(c, executed[c]) for c in window if c in executed and executed[c] + (cw if c == (0, 0) else 0) != want[c] + (Fraction(1, 16) if c == (0, 0) else 0)]
+    R.check(not bad, "C13.R6", f.file, acc.line, f.name, "weights (3 - di^2 - dj^2)/16, centre 4/16 with the copy",
+            "the weight of the neighbour at distance %s is %s, expected %s" % (bad[0][0] if bad else "", bad[0][1] if bad else "", want[bad[0][0]] if bad else ""))
